@@ -125,6 +125,22 @@ def run(ctx, rep):
         else:
             rep.violated(key + "/share", "auxiliary energy is shared in proportion to the energy delivered or absorbed per service",
                          construct=where, why=why)
+    if shares_ok >= 1 and len(denominators) == 1:
+        # the share is applied exactly where the total output is positive: the guard is `0 < total output`, not another
+        # quantity (division by a zero total) and not another threshold (auxiliaries lost below it)
+        den_id = list(denominators)[0]
+        Q = A.atoms[den_id].parts[0]
+        ok_guard = False
+        why_g = "no guard on the total output was found"
+        if guard is not None and isinstance(guard.parts[1], tuple) and guard.parts[1][0] == "lt0":
+            gp = A.poly_of_pid(guard.parts[1][1])
+            ok_guard = gp == alg.pscale(Q, -1)
+            why_g = "the guard is [%s < 0] while the divisor is %s" % (A.show(gp, 2)[:160], A.show(Q, 2)[:160])
+        if ok_guard:
+            rep.discharged("C06/A3/guard", "the shares are taken wherever the total output is positive (guard `0 < total output` on the divisor itself)")
+        else:
+            rep.violated("C06/A3/guard", "auxiliary energy is shared wherever the system delivers energy: the division is guarded by "
+                         "`total output > 0` and by nothing else", construct=where, why=why_g)
     if shares_ok >= 5 and len(denominators) == 1:
         rep.discharged("C06/A3/conservation", "shares of all services use one common total output: they add up to the declared "
                        "auxiliary energy wherever that total is positive (R4)", derivation="%d services" % shares_ok)
